@@ -1,5 +1,6 @@
 //! Implementation-side interpreter of verification scripts (see driver/main.ml for the
 //! model side).  One command per stdin line, one result line per command.
+mod bpt;
 mod ck;
 mod e2;
 mod lockeng;
@@ -21,6 +22,7 @@ fn main() {
     let mut wal_engine: Option<wal::WalEngine> = None;
     let mut e2_engine: Option<e2::E2> = None;
     let mut lk_engine: Option<lockeng::Lk> = None;
+    let mut bpt_engine: Option<bpt::Bpt> = None;
     let mut orc_engine: Option<orc::OrcEngine> = None;
     let mut cs_engine: Option<orc::CsEngine> = None;
     let mut ri_engine: Option<ri::Ri> = None;
@@ -34,6 +36,7 @@ fn main() {
         let res = std::panic::catch_unwind(std::panic::AssertUnwindSafe(|| match toks[0] {
             "wal" => wal_engine.get_or_insert_with(wal::WalEngine::new).cmd(&toks[1..]),
             "ck" => ck::cmd(&toks[1..]),
+            "bpt" => bpt_engine.get_or_insert_with(bpt::Bpt::new).cmd(&toks[1..]),
             "orc" => orc_engine.get_or_insert_with(orc::OrcEngine::new).cmd(&toks[1..]),
             "cs" => {
                 if toks.len() > 1 && toks[1] == "new" {
